@@ -74,6 +74,8 @@ def run_one(stratum, seed, index):
         return gen.random_run(seed, index)
     if stratum == "template":
         return gen.template_run(seed, index)
+    if stratum == "slowpairs":
+        return gen.slowpair_run(seed, index)
     if stratum == "inject":
         return gen.inject_template_run(seed, index)
     if stratum == "injectall":
@@ -485,10 +487,11 @@ def determinism_main(seed, workers):
 def quick_plan(seed, args):
     from . import gen
 
-    n_random = args.random_runs if args.random_runs is not None else 1200
+    n_random = args.random_runs if args.random_runs is not None else 1000
     return [
         ("template", list(range(gen.N_TEMPLATES))),
         ("inject", list(range(gen.N_INJECT_TEMPLATES))),
+        ("slowpairs", list(range(gen.N_SLOWPAIRS))),
         ("random", list(range(n_random))),
     ]
 
@@ -590,6 +593,7 @@ def thorough_batch(pool, seed, args, batch):
     t0 = time.time()
     tasks = list(chunks("template", seed, range(gen.N_TEMPLATES), want_fp=True))
     tasks += list(chunks("inject", seed, range(gen.N_INJECT_TEMPLATES)))
+    tasks += list(chunks("slowpairs", seed, range(gen.N_SLOWPAIRS)))
     n_all = (gen.N_INJECT_TEMPLATES // len(gen.INJECT_NTH)) * gen.INJECT_ALL_CAP
     tasks += list(chunks("injectall", seed, range(n_all), size=CHUNK * 4))
     run_tasks(pool, tasks, batch, max_violating_chunks=60)
